@@ -419,7 +419,7 @@ struct Job {
 
 int main(int argc, char** argv)
 {
-    vx::init(argc, argv, "C56", "exploration", 150, 1500);
+    vx::init(argc, argv, "C56", "exploration", 120, 1350);
     vx::scratch_dir();
     auto& E = vx::ev();
     const bool big = vx::thorough();
@@ -433,7 +433,7 @@ int main(int argc, char** argv)
     if (ck::ThreadCount() != 1) { printf("HARNESS-ERROR process is not single-threaded\n"); return 2; }
 
     // coin sets: four confirmed types | + unconfirmed own change (ancestor unconfirmed) | single coin | everything
-    std::vector<unsigned> masks = big ? std::vector<unsigned>{0x0f, 0x4f, 0x01, 0xff, 0x03, 0x41, 0x0c, 0x2f} : std::vector<unsigned>{0x0f, 0x4f, 0x01};
+    std::vector<unsigned> masks = big ? std::vector<unsigned>{0x0f, 0x4f, 0x01, 0xff, 0x03, 0x41, 0x0c, 0x2f} : std::vector<unsigned>{0x0f, 0x4f, 0x01, 0x41};
     std::vector<Orig> origs;
     for (int nrec : {1, 2})
         for (int shape : {0, 1, 2, 3})
@@ -451,6 +451,8 @@ int main(int argc, char** argv)
     std::vector<Spec> specs;
     for (unsigned m : masks) {
         for (auto& o : origs) {
+            // quick: the coin set {P2WPKH, unconfirmed own change} only with the original that forces the bump to look for more inputs
+            if (!big && m == 0x41 && o.shape != 3) continue;
             Spec sp{m, o, "", {}};
             for (auto& b : bumps) {
                 // the option-only refusals do not depend on the original's shape: once per coin set and feerate
@@ -460,6 +462,7 @@ int main(int argc, char** argv)
             }
             specs.push_back(sp);
         }
+        if (!big && m == 0x41) continue;
         for (CAmount fr : {(CAmount)1000, (CAmount)10000}) { Orig fo{1, 0, true, fr}; fo.foreign = true; specs.push_back({m, fo, "", {"u:foreign"}}); }
     }
     if (!vx::ctx().replay.empty()) {
